@@ -182,8 +182,38 @@ def table(P, f, atom_names, assignments, args=None):
     return out
 
 
+STRUCTURAL_PROPS = [
+    (r'ItemPath', ['C09', 'C11', 'C14', 'C19']),
+    (r'function::(Function|Argument|CallingConvention|FunctionBody)', ['C06', 'C04', 'C07']),
+    (r'semantic::types::Type$|grammar::Type$', ['C06', 'C10', 'C11']),
+    (r'Region|TypeDefinition|TypeVftable', ['C01', 'C06']),
+    (r'EnumDefinition', ['C08']),
+    (r'Attribute|Expr|Ident', ['C17', 'C18']),
+]
+
+
+def structural_impls(ctx):
+    """equality, hashing, ordering and cloning of the grammar and semantic value types are the derived (structural) ones: the
+    registry keys, the slot comparison of C06, the sort that makes the output deterministic and every `.clone()` of a parsed or
+    resolved value rely on it (a hand-written impl may identify different values or drop a field)"""
+    P = ctx.prog
+    n = 0
+    for i in P.impls:
+        t = (i.get('trait') or '').split('::')[-1]
+        st = i.get('self_ty') or ''
+        if t not in ('PartialEq', 'Eq', 'Hash', 'PartialOrd', 'Ord', 'Clone') or not re.match(r'^(grammar|semantic)::', st):
+            continue
+        n += 1
+        if i.get('derived'):
+            continue
+        props = next((pr for rx, pr in STRUCTURAL_PROPS if re.search(rx, st)), ['C09', 'C14'])
+        ctx.ob(props, 'R-TABLE', 'structural|%s|%s' % (st, t), False, 'hand-written `impl %s for %s`: comparison / hashing / cloning of this type must be the derived, field-by-field one' % (t, st), loc(i['span']))
+    ctx.ob(['C09', 'C14', 'C06', 'C11'], 'R-TABLE', 'structural|census', n >= 100, 'derived PartialEq/Eq/Hash/PartialOrd/Ord/Clone impls of grammar and semantic types: %d (floor 100), none hand-written' % n, nontrivial=False)
+
+
 def run(ctx):
     P = ctx.prog
+    structural_impls(ctx)
 
     def one(suffix):
         c = [f for f in P.fns.values() if f.id == suffix or f.id.endswith('::' + suffix)]
